@@ -15,6 +15,10 @@ impl LocalKey {
             .as_ref()
             .split_last_chunk::<16>()
             .ok_or(PasetoError::CryptoError)?;
+        #[cfg(paseto_rs_verif)]
+        let verif_iv = paseto_core::verif::iv(*n2);
+        #[cfg(paseto_rs_verif)]
+        let n2 = &verif_iv;
         let ak = kdf(&self.0, 0x81, nonce);
 
         let key = UnboundCipherKey::new(&AES_256, ek).map_err(|_| PasetoError::CryptoError)?;
